@@ -153,7 +153,9 @@ def ensure_coq_built():
     if not os.path.exists(os.path.join(COQ, "Makefile")):
         subprocess.run(["coq_makefile", "-f", "_CoqProject", "-o", "Makefile"], cwd=COQ, check=True,
                        capture_output=True)
-    r = subprocess.run(["make", "-j16"], cwd=COQ, capture_output=True, text=True, timeout=3600)
+    os.makedirs(WORKROOT, exist_ok=True)
+    r = subprocess.run(["flock", os.path.join(WORKROOT, "make.lock"), "make", "-j16"], cwd=COQ, capture_output=True,
+                       text=True, timeout=3600)
     if r.returncode != 0:
         raise CheckError("Coq development does not build:\n" + (r.stdout + r.stderr)[-3000:])
     return r.stdout
